@@ -155,10 +155,16 @@ def run_impl(case):
         async def coro():
             if case['coro'][0] == 'val':
                 return case['coro'][1]
+            if case['coro'][1] == ['py', 'CancelledError']:
+                import kiwipy
+                raise kiwipy.CancelledError()      # e.g. the coroutine asked an already cancelled communicator future for its result
             raise UserError(case['coro'][1][1])
         f = futures.create_task(coro, lp)
         drain(lp)
-        return {'final': status(f)}
+        o = {'final': status(f)}
+        if f.done() and not f.cancelled() and f.exception() is not None:
+            o['exc_class'] = '%s.%s' % (type(f.exception()).__module__, type(f.exception()).__name__)
+        return o
     if kind == 'action':
         calls = []
 
@@ -218,6 +224,9 @@ def oracle(case, obs):
         want = case['coro'] if case['coro'][0] == 'val' else ['exn', case['coro'][1]]
         if obs['final'] != list(want):
             return {'signature': 'create_task_wrong_outcome', 'kind': 'task', 'expected': want, 'observed': obs['final']}
+        if case['coro'][1] == ['py', 'CancelledError'] and not str(obs.get('exc_class', '')).startswith('concurrent.futures'):
+            # the coroutine's own exception object, not a look-alike of another class
+            return {'signature': 'create_task_replaced_the_exception', 'kind': 'task', 'observed': obs.get('exc_class')}
         return None
     if kind == 'action':
         state, calls, rets = 'pending', 0, []
@@ -285,6 +294,9 @@ def generate(tier, rng, around=None):
         for n in range(0, 5 if tier != 'thorough' else 6):
             for ops in itertools.product(['run', 'cancel'], repeat=n):
                 cases.append({'kind': 'action', 'coro': coro, 'ops': list(ops)})
+    # a coroutine that fails with exactly the communicator's CancelledError (it asked a cancelled reply for its result): the task
+    # future ends with THAT exception, it is not cancelled and not left pending
+    cases.append({'kind': 'task', 'coro': ['exn', ['py', 'CancelledError']]})
     return {'cases': cases, 'exhaustive': True,
             'scope': 'every depth <= %d x every completion order x 5 terminal outcomes for 3 adapters; every run/cancel sequence of length <= 4' % maxd}
 
